@@ -447,4 +447,8 @@ WITNESSES = [
      "old": "\t\tif (pfx_table_add(args->pfx_table, record) != PFX_SUCCESS)\n\t\t\targs->error = true;", "new": "\t\targs->error = pfx_table_add(args->pfx_table, record) != PFX_SUCCESS;"},
     {"id": "C18.w13-grow-bookkeeping-before-allocation-test", "rule": "C18.R3", "file": TH,
      "old": "\t\t\tif (!segment)\n\t\t\t\treturn;", "new": "\t\t\t++hashlin->bucket_bit;\n\t\t\tif (!segment)\n\t\t\t\treturn;\n\t\t\t--hashlin->bucket_bit;"},
+    {"id": "C18.w14-calloc-straight-from-libc", "rule": "C18.R1", "file": "rtrlib/lib/alloc_utils.c",
+     "old": "\tvoid *p = lrtr_malloc(bytes);\n\n\tif (!p)\n\t\treturn p;\n\n\treturn memset(p, 0, bytes);", "new": "\treturn calloc(1, bytes);"},
+    {"id": "C18.w15-undo-F20-add_group-reports-success", "rule": "C18.R2", "file": "rtrlib/rtr_mgr.c",
+     "old": "\tif (!new_group_node) {\n\t\terr_code = RTR_ERROR;\n\t\tgoto err;\n\t}", "new": "\tif (!new_group_node)\n\t\tgoto err;"},
 ]
